@@ -2,6 +2,7 @@ import Driver.Bitmap
 import Driver.Strings
 import Driver.Topo
 import Driver.CpuKinds
+import Driver.MemAttrs
 open Driver
 
 def main (args : List String) : IO UInt32 := do
@@ -19,6 +20,9 @@ def main (args : List String) : IO UInt32 := do
     return 0
   | ["cpukinds"] =>
     lineLoop stdin stdout CpuKindsEng.init CpuKindsEng.step
+    return 0
+  | ["memattrs"] =>
+    lineLoop stdin stdout (MemAttrsEng.init 4) MemAttrsEng.step
     return 0
   | _ =>
     IO.eprintln "usage: hwmodel <engine>"
